@@ -709,11 +709,24 @@ KNOWN_CASES = {
         "main.go": 'package main\n\nfunc main() { println(InitA().S) }\n',
         "wire.go": '//go:build wireinject\n\npackage main\n\nimport "github.com/google/wire"\n\nvar ASet = wire.NewSet(NewA)\n\nfunc InitA() *A {\n\twire.Build(ASet)\n\treturn nil\n}\n'},
         what="rerun"),
+    # package variables that hold a wire.Value / wire.Bind: transformed, then dropped by the writer; their uses stay
+    "KF-C14-34": dict(files={
+        "t.go": 'package main\n\ntype Greeter interface{ Greet() string }\ntype English struct{ tag string }\n\nfunc (e *English) Greet() string  { return "hello " + e.tag }\nfunc NewEnglish(tag string) *English { return &English{tag} }\n',
+        "main.go": 'package main\n\nfunc main() { println(InitGreeter().Greet()) }\n',
+        "wire.go": '//go:build wireinject\n\npackage main\n\nimport "github.com/google/wire"\n\nvar TagValue = wire.Value("tagged")\nvar GreeterBinding = wire.Bind(new(Greeter), new(*English))\nvar GreeterSet = wire.NewSet(NewEnglish, GreeterBinding, TagValue)\n\nfunc InitGreeter() Greeter {\n\twire.Build(GreeterSet)\n\treturn nil\n}\n'},
+        what="vet"),
+    # the provider lives in one set, the binding in the set that includes it: the migrated Bind provides the implementation
+    # a second time and the generator refuses the migrated declarations
+    "KF-C13-34": dict(files={
+        "t.go": 'package main\n\ntype Greeter interface{ Greet() string }\ntype English struct{}\n\nfunc (e *English) Greet() string { return "hello" }\nfunc NewEnglish() *English         { return &English{} }\n\ntype Svc struct{ G Greeter }\n\nfunc NewSvc(g Greeter) *Svc { return &Svc{g} }\n',
+        "main.go": 'package main\n\nfunc main() { println(InitSvc().G.Greet()) }\n',
+        "wire.go": '//go:build wireinject\n\npackage main\n\nimport "github.com/google/wire"\n\nvar ImplSet = wire.NewSet(NewEnglish)\nvar GreeterSet = wire.NewSet(ImplSet, wire.Bind(new(Greeter), new(*English)))\n\nfunc InitSvc() *Svc {\n\twire.Build(GreeterSet, NewSvc)\n\treturn nil\n}\n'},
+        what="vet"),
     "KF-C14-15": dict(files={
-        "go-conf/conf.go": 'package conf\n\ntype Conf struct{ S string }\n\nfunc NewConf() *Conf { return &Conf{S: "c"} }\n',
-        "t.go": 'package main\n\nimport "vscratch/NAME/go-conf"\n\ntype App struct{ C *conf.Conf }\n\nfunc NewApp(c *conf.Conf) *App { return &App{C: c} }\n',
+        "lib/v2/conf.go": 'package lib\n\ntype Conf struct{ S string }\n\nfunc NewConf() *Conf { return &Conf{S: "c"} }\n',
+        "t.go": 'package main\n\nimport v2 "vscratch/NAME/lib/v2"\n\ntype App struct{ C *v2.Conf }\n\nfunc NewApp(c *v2.Conf) *App { return &App{C: c} }\n',
         "main.go": 'package main\n\nfunc main() { println(InitApp().C.S) }\n',
-        "wire.go": '//go:build wireinject\n\npackage main\n\nimport (\n\t"github.com/google/wire"\n\n\t"vscratch/NAME/go-conf"\n)\n\nfunc InitApp() *App {\n\twire.Build(conf.NewConf, NewApp)\n\treturn nil\n}\n'},
+        "wire.go": '//go:build wireinject\n\npackage main\n\nimport (\n\t"github.com/google/wire"\n\n\tv2 "vscratch/NAME/lib/v2"\n)\n\nfunc InitApp() *App {\n\twire.Build(v2.NewConf, NewApp)\n\treturn nil\n}\n'},
         what="vet"),
 }
 
@@ -841,6 +854,43 @@ DIRECTED = {
         "t.go": 'package main\n\nimport (\n\t"sync"\n\t"time"\n)\n\ntype Addr string\ntype Base string\n\ntype Server struct {\n\tAddr Addr\n\tmu   sync.Mutex `wire:"-"`\n\tMu2  sync.Mutex `wire:"-"`\n}\n\ntype Client struct {\n\tBase    Base\n\tTimeout time.Duration\n}\n\nfunc NewAddr() Addr { return ":80" }\nfunc NewBase() Base { return "b" }\nfunc (s *Server) Lock() { s.mu.Lock(); s.Mu2.Lock() }\n',
         "main.go": 'package main\n\nfunc main() { println(string(InitServer().Addr), string(InitClient().Base), int(InitClient().Timeout)) }\n',
         "wire.go": '//go:build wireinject\n\npackage main\n\nimport "github.com/google/wire"\n\nfunc InitServer() *Server {\n\twire.Build(NewAddr, wire.Struct(new(Server), "*"))\n\treturn nil\n}\n\nfunc InitClient() *Client {\n\twire.Build(NewBase, wire.Struct(new(Client), "Base"))\n\treturn nil\n}\n'},
+    # a package that imports nothing but wire (small token positions), a wire.Value of a composite literal written over
+    # several lines: the layout of the output must not depend on the positions of the SOURCE file set (24 more runs)
+    "value_layout": {
+        "__reruns__": 24,
+        "t.go": 'package main\n\ntype Config struct {\n\tHost  string\n\tPort  int\n\tTags  []string\n\tExtra map[string]int\n}\n\ntype Server struct{ C Config }\n\nfunc NewServer(c Config) *Server { return &Server{C: c} }\n',
+        "main.go": 'package main\n\nfunc main() { s := InitServer(); println(s.C.Host, s.C.Port, len(s.C.Tags), s.C.Extra["y"]) }\n',
+        "filler1.go": 'package main\n\n// filler 1\nvar filler1 = 1\n',
+        "filler2.go": 'package main\n\n// filler 2\nvar filler2 = 2\n',
+        "filler3.go": 'package main\n\n// filler 3\nvar filler3 = 3\n',
+        "filler4.go": 'package main\n\n// filler 4\nvar filler4 = 4\n',
+        "filler5.go": 'package main\n\n// filler 5\nvar filler5 = 5\n',
+        "filler6.go": 'package main\n\n// filler 6\nvar filler6 = 6\n',
+        "filler7.go": 'package main\n\n// filler 7\nvar filler7 = 7\n',
+        "filler8.go": 'package main\n\n// filler 8\nvar filler8 = 8\n',
+        "filler9.go": 'package main\n\n// filler 9\nvar filler9 = 9\n',
+        "wire.go": '//go:build wireinject\n\npackage main\n\nimport "github.com/google/wire"\n\nfunc InitServer() *Server {\n\twire.Build(\n\t\twire.Value(Config{\n\t\t\tHost: "localhost",\n\t\t\tPort: 8080,\n\t\t\tTags: []string{\n\t\t\t\t"a",\n\t\t\t\t"b",\n\t\t\t},\n\t\t\tExtra: map[string]int{"x": 1,\n\t\t\t\t"y": 2},\n\t\t}),\n\t\tNewServer,\n\t)\n\treturn nil\n}\n'},
+    # the same with a bare identifier as the value
+    "value_ident_layout": {
+        "__reruns__": 24,
+        "t.go": 'package main\n\ntype Config struct {\n\tHost  string\n\tPort  int\n\tTags  []string\n\tExtra map[string]int\n}\n\ntype Server struct{ C Config }\n\nfunc NewServer(c Config) *Server { return &Server{C: c} }\n\nvar defaultConfig = Config{Host: "localhost", Port: 8080, Tags: []string{"a", "b"}, Extra: map[string]int{"y": 2}}\n',
+        "main.go": 'package main\n\nfunc main() { s := InitServer(); println(s.C.Host, s.C.Port, len(s.C.Tags), s.C.Extra["y"]) }\n',
+        "filler1.go": 'package main\n\n// filler 1\nvar filler1 = 1\n',
+        "filler2.go": 'package main\n\n// filler 2\nvar filler2 = 2\n',
+        "filler3.go": 'package main\n\n// filler 3\nvar filler3 = 3\n',
+        "filler4.go": 'package main\n\n// filler 4\nvar filler4 = 4\n',
+        "filler5.go": 'package main\n\n// filler 5\nvar filler5 = 5\n',
+        "filler6.go": 'package main\n\n// filler 6\nvar filler6 = 6\n',
+        "filler7.go": 'package main\n\n// filler 7\nvar filler7 = 7\n',
+        "filler8.go": 'package main\n\n// filler 8\nvar filler8 = 8\n',
+        "filler9.go": 'package main\n\n// filler 9\nvar filler9 = 9\n',
+        "wire.go": '//go:build wireinject\n\npackage main\n\nimport "github.com/google/wire"\n\nfunc InitServer() *Server {\n\twire.Build(\n\t\twire.Value(defaultConfig),\n\t\tNewServer,\n\t)\n\treturn nil\n}\n'},
+    # an unnamed import whose package name is not the last path element (repaired: its import was omitted)
+    "import_name_not_last_element": {
+        "go-conf/conf.go": 'package conf\n\ntype Conf struct{ S string }\n\nfunc NewConf() *Conf { return &Conf{S: "c"} }\n',
+        "t.go": 'package main\n\nimport "vscratch/NAME/go-conf"\n\ntype App struct{ C *conf.Conf }\n\nfunc NewApp(c *conf.Conf) *App { return &App{C: c} }\n',
+        "main.go": 'package main\n\nfunc main() { println(InitApp().C.S) }\n',
+        "wire.go": '//go:build wireinject\n\npackage main\n\nimport (\n\t"github.com/google/wire"\n\n\t"vscratch/NAME/go-conf"\n)\n\nfunc InitApp() *App {\n\twire.Build(conf.NewConf, NewApp)\n\treturn nil\n}\n'},
     # wire.Struct(new(T)) without field names fills no field (repaired: it was migrated as "*")
     "struct_no_field_names": {
         "t.go": 'package main\n\ntype Host string\n\ntype Config struct{ Host Host }\n\nfunc ProvideHost() Host { return "h" }\n\ntype App struct {\n\tC *Config\n\tH Host\n}\n\nfunc NewApp(c *Config, h Host) *App { return &App{c, h} }\n',
@@ -932,6 +982,7 @@ def directed_runs(key="WD-x"):
         recs.append(rec)
         sub = files.get("__sub__", "")
         margs = files.get("__args__", ["-o", "kessoku.go", "./"])
+        reruns = files.get("__reruns__", 0)
         files = {k: v for k, v in files.items() if not k.startswith("__")}
         for side in ("", "_k", "_k2"):
             d = os.path.join(mod, name + side)
@@ -958,6 +1009,12 @@ def directed_runs(key="WD-x"):
         rc, o, e = vlib.run([kessoku, "migrate"] + margs, cwd=root2, env=dict(env, GOMAXPROCS="1"), timeout=300)
         if rc != 0 or open(os.path.join(kdir2, "kessoku.go")).read().replace(name + "_k2", name + "_k") != text1:
             rec["problems"].append("C14: migrate output differs between two runs")
+        for q in range(reruns):
+            os.remove(os.path.join(kdir2, "kessoku.go"))
+            rc, o, e = vlib.run([kessoku, "migrate"] + margs, cwd=root2, env=env, timeout=300)
+            if rc != 0 or open(os.path.join(kdir2, "kessoku.go")).read().replace(name + "_k2", name + "_k") != text1:
+                rec["problems"].append("C14: migrate output differs between repeated runs (run %d of %d)" % (q + 3, reruns + 2))
+                break
         # the output path already holds a longer (valid, unrelated) file: it must be replaced, not overwritten in place
         stale = "package main\n\n" + "".join("var staleLeftover%d = %d\n" % (q, q) for q in range(len(text1) // 20 + 40))
         with open(os.path.join(kdir2, "kessoku.go"), "w") as f:
